@@ -117,6 +117,15 @@ def option_cases():
     flagsets = [[], ["-s", data], ["-e", data], ["-i", "rdfs"], ["-m"], ["-im"], ["-a"], ["-a", "-it"], ["--abort"], ["--allow-info"], ["-w"], ["--max-depth", "4"], ["-d"],
                 ["--focus", "http://ex.org/a, ex:b"], ["--shape", "http://ex.org/S"], ["-f", "turtle"], ["-f", "table"], ["-df", "turtle"], ["-sf", "nt"], ["-ef", "xml"],
                 ["-s", data, "-a", "-it", "--abort", "-w", "--max-depth", "7", "-f", "json-ld", "-i", "both"]]
+    # every pair of independent flags: a flag must arrive whatever other flag is given next to it
+    singles = [["-m"], ["-a"], ["--abort"], ["--allow-info"], ["-w"], ["--max-depth", "4"], ["-i", "rdfs"], ["-d"], ["-a", "-it"], ["-f", "turtle"], ["--focus", "http://ex.org/a, ex:b"]]
+    for i_ in range(len(singles)):
+        for j_ in range(i_ + 1, len(singles)):
+            if singles[i_][0] == "-a" and singles[j_][0] == "-a":
+                continue
+            flagsets.append(singles[i_] + singles[j_])
+            if (i_ + j_) % 3 == 0:
+                flagsets.append(singles[j_] + singles[i_])
     bodies, meta, bad = [], [], []
     orig = CLI.validate
     try:
@@ -204,13 +213,13 @@ def main(tier, seed, replay=None):
                 c["sg"] = S.shapes_to_rdf(c["shapes"])
             else:
                 c = EC.base_case(rng)
-            opts = rng.choice([{}, {}, {"abort_on_first": True}, {"allow_warnings": True}])
+            opts = rng.choice([{}, {}, {"abort_on_first": True}, {"allow_warnings": True}, {"allow_infos": True}, {"allow_infos": True, "allow_warnings": True}])
             if rng.random() < 0.2:
                 # every shape of waivable severity: with allow_warnings the report conforms and still has results
                 for sh_ in c["shapes"]:
                     sh_["sev"] = rng.choice([SH.Warning, SH.Info])
                 c["sg"] = S.shapes_to_rdf(c["shapes"])
-                opts = {"allow_warnings": True}
+                opts = rng.choice([{"allow_warnings": True}, {"allow_warnings": True, "allow_infos": True}])
             base = S.run_validate(c["data"], c["sg"], **opts)
             if base[0] != "ok":
                 continue
@@ -268,7 +277,7 @@ def main(tier, seed, replay=None):
                 ref = S.run_validate(dp, sp, **opts)   # the API on the same files
                 if ref[0] != "ok":
                     continue
-                flags = (["--abort"] if opts.get("abort_on_first") else []) + (["-w"] if opts.get("allow_warnings") else [])
+                flags = (["--abort"] if opts.get("abort_on_first") else []) + (["--allow-infos"] if opts.get("allow_infos") else []) + (["-w"] if opts.get("allow_warnings") else [])
                 for fmt in GRAPH_FORMATS + ["human", "table"]:
                     cli_jobs.append((c, ref, fmt, ["-s", sp, "-f", fmt] + flags + [dp], opts))
         with ThreadPoolExecutor(max_workers=12) as ex:
@@ -338,7 +347,7 @@ def main(tier, seed, replay=None):
     cov.update({
         "evaluations": len(bodies) + stats["api_roundtrips"] + stats["cli_runs"],
         "distinct_nontrivial": stats["api_roundtrips"] + stats["cli_runs"],
-        "rule": "(1) Tie A: cli.main() in-process with validate() replaced by a recorder, 21 flag sets: every keyword received is in the generated table, and the values of max-depth/inference/abort/allow/advanced/iterate/meta/focus/format arrive unchanged; "
+        "rule": "(1) Tie A: cli.main() in-process with validate() replaced by a recorder, 21 flag sets and every pair of 11 independent flags (both orders for a third of them): every keyword received is in the generated table, and the values of max-depth/inference/abort/allow/advanced/iterate/meta/focus/format arrive unchanged; "
                 "(2) API: reports of random cases (all literal kinds and language tags, blank-node value nodes, complex paths, sh:detail nesting) x turtle/xml/json-ld/nt/n3: the returned bytes parse back to the same verdict and result keys, and (except JSON-LD) to a graph isomorphic to the report graph; "
                 "(3) CLI: `python -m pyshacl -f fmt` on the same files for the five graph formats + human + table: parsed output = API report (isomorphic / verdict and result count), exit status 0 iff conforms",
         "distribution": dict(stats, option_cases=len(bodies), differences=len(diffs), option_value_errors=len(opt_bad), table_disagreements=len(failed)),
